@@ -40,6 +40,8 @@ def check(prog, rep, tier):
                       'have the widths of the RFC layout its decoder reads')
     rep.rule('R06.e', 'dispatch symmetry: every type code construct_attributes encodes is decoded by '
                       'parse_attributes with the same class')
+    rep.rule('R06.f', 'encoders keep no state: no construct function writes class-level or module-level state '
+                      '(an earlier message must not change how a later one is encoded)')
     rep.assumptions += ['equality of decoded and given values for concrete inputs is not decided (round-trip '
                         'equality over the value space is not a static property)']
 
@@ -77,6 +79,19 @@ def check(prog, rep, tier):
                 expected='withdrawn routes, attributes and NLRI all present', key='Update.construct')
     else:
         rep.ok('R06.a', 'Update.construct', file=f.file, line=f.node.lineno, found='%d path(s)' % npaths)
+
+    # ---------------------------------------------------------------- R06.f
+    from .c10 import shared_state_writes
+    nfun, found = shared_state_writes(prog, lambda fn: fn.module.name.startswith('yabgp.message')
+                                      and fn.name.startswith('construct'))
+    for fn, node, what in found:
+        key = 'state:%s:%s' % (fn.qualname, what)
+        rep.bad('R06.f', key, file=fn.file, line=node.lineno, func=fn.qualname,
+                found='%s: state written while encoding one message changes the encoding of later ones' % what,
+                expected='local variables only', key=key)
+    if not found:
+        rep.ok('R06.f', 'construct-stateless', found='%d construct functions scanned' % nfun)
+    rep.floor('R06.f', 'construct functions', nfun, 60)
 
     # ---------------------------------------------------------------- R06.b
     width_rule(prog, rep, 'R06.b', only=('Update.construct_prefix_v4',))
